@@ -484,7 +484,7 @@ func (g *gen) script(in *inst) {
 		if !g.has("B") {
 			return
 		}
-		bal := func(in *inst) event { return event{"B", []string{"", ""}} }
+		bal := func(in *inst) event { return g.next1(in, "B") }
 		if r.Chance(0.4) {
 			// a current replica is up and registered but not serving the partition when the balance round wants to add
 			g.queue = []func(in *inst) event{allUp, conv(false), check, check, hang, bal, bal, conv(false), bal, conv(false), tick(6), check, check, bal}
@@ -679,7 +679,14 @@ func (g *gen) next1(in *inst, kind string) event {
 	case "LR":
 		return event{"LR", []string{fmt.Sprint(g.pid()), fmt.Sprint(g.pickLearner(in)), fmt.Sprint(r.Pick(2))}}
 	case "B":
-		return event{"B", []string{"", ""}}
+		b := event{"B", []string{"", ""}}
+		if r.Chance(0.3) && in.reg.failNext == 0 {
+			// the round's first register update fails (register hiccup / concurrent writer): the round must give up,
+			// not write again
+			g.queue = append([]func(in *inst) event{func(in *inst) event { return b }}, g.queue...)
+			return event{"X", []string{"1"}}
+		}
+		return b
 	case "P":
 		return event{"P", []string{"", ""}}
 	}
